@@ -450,7 +450,7 @@ LINK_INVS["k1b"] = ("https://mirror.org/m/", *LINK_INVS["k1"][1:])
 L_INVS = [None, "k1", "k2", "k3", "k*", "zz", "k1b"]
 L_DOMS = [None, "std", "py", "*"]
 L_TYPES = [None, "label", "func*", "*"]
-L_TARGETS = ["sec-one", "mod.func", "sec*", "sec\\*star", "nomatch", "*", "sp ace", "only2", "deep", "top3", "same-loc"]
+L_TARGETS = ["sec-one", "mod.func", "sec*", "sec\\*star", "nomatch", "*", "sp ace", "only2", "deep", "top3", "same-loc", "", "<nofrag>"]
 FORMS = ["auto", "explicit", "empty", "title"]
 
 
@@ -495,6 +495,8 @@ class LinkSystem(System):
             i, d, t, n, form = q
             if form != "auto" and "\\" in n:
                 continue  # backslash escapes are processed by Markdown in inline destinations
+            if n == "<nofrag>" and i is None and d is None and t is None:
+                continue  # a bare 'inv:' has neither path nor target
             yield list(q)
 
     @staticmethod
@@ -503,6 +505,8 @@ class LinkSystem(System):
         while parts and parts[-1] is None:
             parts.pop()
         path = ":".join("*" if p is None else p for p in parts)
+        if n == "<nofrag>":  # no '#target' at all: the name pattern is empty and matches no entry
+            return f"inv:{path}"
         return f"inv:{path}#{n.replace(' ', '%20')}"
 
     def run(self, q):
@@ -523,7 +527,7 @@ class LinkSystem(System):
         text = f"PRE {link} POST\n"
         doc, warn = docutils_doctree(text, {"myst_inventories": self.setting})
         ws = parse_warnings(warn)
-        exp = model_filter(self.model, i, d, t, n)
+        exp = model_filter(self.model, i, d, t, "" if n == "<nofrag>" else n)
         viol = []
         sig = {"clause": "link", "form": form}
         refs = [r for r in doc.findall(nodes.reference)]
